@@ -123,6 +123,8 @@ def gen_cases(tier, seed):
                       rng.choice([C2S, S2C]),
                       'index': rng.choice([3, 8, 15, 30]),
                       'rx_api': api,
+                      'reader': ['read', 'readline', 'iter',
+                                 'readuntil'][(i // 2) % 4],
                       'op': list(rng.choice([('flip', 'body'), ('flip', 'tagN'),
                                              ('flip', 'pad'), ('dup', ''),
                                              ('insert', ''),
@@ -160,7 +162,9 @@ def signature(case):
     parts = (case['enc'], case['mac'] if not case['aead'] else '-',
              case['cmp'], case['dir'], case['index'], tuple(case['op']),
              case.get('rekey'), case['chunk'] if case.get('rekey') else '',
-             case.get('rx_api'), case['chunk'] if case.get('rx_api') else '')
+             case.get('rx_api'), case['chunk'] if case.get('rx_api') else '',
+             case.get('reader') if case.get('rx_api') == 'stream_late'
+             else '')
     return hashlib.sha1(repr(parts).encode()).hexdigest()[:16]
 
 
@@ -456,10 +460,31 @@ def run_case(case):
                                          ('stderr', proc.stderr, 1)):
                         buf = bytearray()
                         end = 'eof'
-                        for _ in range(10000):
+                        how = case.get('reader', 'read')
+                        it = rd.__aiter__()
+
+                        async def take():
+                            # the line-oriented calls hand over an
+                            # unterminated tail first and report the error
+                            # (or EOF) on the next call
+                            if how == 'readline':
+                                return await rd.readline()
+                            if how == 'iter':
+                                try:
+                                    return await it.__anext__()
+                                except StopAsyncIteration:
+                                    return b''
+                            if how == 'readuntil':
+                                try:
+                                    return await rd.readuntil(b'\n')
+                                except asyncio.IncompleteReadError as e_:
+                                    return e_.partial
+                            return await rd.read(65536)
+
+                        mon['late_' + how] = mon.get('late_' + how, 0) + 1
+                        for _ in range(100000):
                             try:
-                                d_ = await asyncio.wait_for(rd.read(65536),
-                                                            30)
+                                d_ = await asyncio.wait_for(take(), 30)
                             except asyncio.TimeoutError:
                                 end = 'timeout'
                                 break
@@ -598,6 +623,21 @@ def run_case(case):
                                       f'a DISCONNECT on the wire; the sender '
                                       f'of the altered stream only sees the '
                                       f'transport go away; {tm.applied}'})
+
+                # the endpoint whose outgoing stream was altered hears of it
+                # too (the receiver's DISCONNECT carries the reason); it may
+                # see a plain loss when that message did not make it, but
+                # never a clean close it did not ask for
+                tx_owner = owners['client' if d == C2S else 'server']
+                if not clean_end0 and tx_owner.lost == 1:
+                    mon['sender_end_checked'] = \
+                        mon.get('sender_end_checked', 0) + 1
+                    if tx_owner.lost_exc is None:
+                        viol.append({
+                            'mechanism': 'sender_told_clean_close_after_tamper',
+                            'detail': f'the endpoint whose stream was altered '
+                                      f'got connection_lost(None); '
+                                      f'{tm.applied}'})
 
                 # the receiver's owner must be told about an error
                 mon['error_class_checked'] += 1
